@@ -59,6 +59,8 @@ def bp_mutation(rng, reg, names, funcs, sizes, SR, via=None):
         k = k - 0.5
     if k < 0.25:
         d = (sizes[i] + rng.choice([0, 0, 1, 2])) / SR         # sometimes the same value: no observable change
+        if rng.random() < 0.25:
+            d = sizes[i] / SR * rng.choice([1 + 3e-10, 1 - 2e-10, 1 + 4e-16])      # differs in the last digits only: still different
         return ("EChangeDur", via[0], via[1], names[i], d, False) if via else ("BChangeDur", reg, names[i], d, False)
     if k < 0.5:
         p = rng.choice(PARAMS[funcs[i]])
